@@ -224,24 +224,9 @@ class Repo:
         self._index_all()
         self.inlined = []
         self.opaque_callers = {}
+        self.folded_temps = 0
         if inline:
-            from . import tempinline as TI
-            kl = TI.load_known()
-            self.folded_temps = 0
-            if kl is not None:
-                touched = set()
-                for q, f in list(self.funcs.items()):
-                    n = TI.normalise_function(f.node, kl.get(q, set()))
-                    if n:
-                        self.folded_temps += n
-                        touched.add(f.module.name)
-                for mn in touched:
-                    m = self.modules[mn]
-                    ast.fix_missing_locations(m.tree)
-                    A.set_parents(m.tree)
-                    for n in ast.walk(m.tree):
-                        if not hasattr(n, "_module"):
-                            n._module = m
+            self._fold_temps()
         if inline:
             from . import inline as INL
             known = INL.load_known()
@@ -262,6 +247,65 @@ class Repo:
                             if not hasattr(n, "_module"):
                                 n._module = m
                     self._index_all()
+                    self._fold_temps()      # temporaries introduced for the inlined helpers' parameters
+
+    def _fold_temps(self):
+        from . import tempinline as TI
+        kl = TI.load_known()
+        if kl is None:
+            return
+        touched = set()
+        stable = self._stable_attrs()
+        for q, f in list(self.funcs.items()):
+            owner = f
+            while owner is not None and owner.cls is None:
+                owner = owner.parent
+            n = 0
+            if owner is not None:
+                n = TI.fold_aliases(f.node, kl.get(q, set()), stable.get(owner.cls.qual, set()))
+            n += TI.normalise_function(f.node, kl.get(q, set()))
+            if n:
+                self.folded_temps += n
+                touched.add(f.module.name)
+        for mn in touched:
+            m = self.modules[mn]
+            ast.fix_missing_locations(m.tree)
+            A.set_parents(m.tree)
+            for n in ast.walk(m.tree):
+                if not hasattr(n, "_module"):
+                    n._module = m
+
+    def _stable_attrs(self):
+        """per class: names of methods, and of instance fields that are bound in __init__ only (never rebound anywhere in the
+        package through any receiver)"""
+        rebound = set()
+        for m in self.modules.values():
+            for n in ast.walk(m.tree):
+                tg = []
+                if isinstance(n, ast.Assign):
+                    tg = n.targets
+                elif isinstance(n, (ast.AugAssign, ast.AnnAssign)):
+                    tg = [n.target]
+                elif isinstance(n, ast.Delete):
+                    tg = n.targets
+                for t in tg:
+                    for x in ast.walk(t):
+                        if isinstance(x, ast.Attribute) and isinstance(x.ctx, (ast.Store, ast.Del)):
+                            fn = A.enclosing(x, ast.FunctionDef)
+                            if fn is None or fn.name != "__init__":
+                                rebound.add(x.attr)
+        out = {}
+        for q, c in self.classes.items():
+            names = set()
+            for k in self.mro(c):
+                names |= {mn for mn in k.methods if mn not in rebound}
+                init = k.methods.get("__init__")
+                if init is not None:
+                    for n in ast.walk(init.node):
+                        if isinstance(n, ast.Attribute) and isinstance(n.ctx, ast.Store) and n.attr not in rebound:
+                            names.add(n.attr)
+            out[q] = names
+        return out
 
     def _remove_def(self, f):
         node = f.node
